@@ -55,19 +55,29 @@ Comments == {[fam |-> "comment", b |-> b, l |-> l] : b \in Strs(SmallAlphabet, B
                                                      l \in {<<>>, <<97>>}}
 \* family 4: verbatim bodies
 VarTag == <<123, 123, 32, 118, 32, 125, 125>>     \* {{ v }}  -- only in the hand-made bodies below
+VerbPlaces == {"top", "macro", "loop", "block", "if"}
 IfTag == <<123, 37, 32, 105, 102, 32, 118, 32, 37, 125, 120, 123, 37, 32, 101, 110, 100, 105, 102, 32, 37, 125>>   \* {% if v %}x{% endif %}
 HandVerb == {VarTag, <<123, 123, 118, 125, 125>>, <<97, 32>> \o VarTag \o <<32, 98>>, IfTag, <<123, 35, 32, 99, 32, 35, 125>>, SpyPrint,
              <<10>> \o VarTag \o <<10>>, <<123, 123, 32, 32, 118, 124, 117, 112, 112, 101, 114, 32, 125, 125>>}
-Verbs == {[fam |-> "verbatim", b |-> b, l |-> l] : b \in Strs(SmallAlphabet, BodyLen) \cup HandVerb, l \in {<<>>, <<97>>}}
+Verbs == {[fam |-> "verbatim", b |-> b, l |-> l, pl |-> "top"] : b \in Strs(SmallAlphabet, BodyLen) \cup HandVerb, l \in {<<>>, <<97>>}}
+         \cup {[fam |-> "verbatim", b |-> b, l |-> <<>>, pl |-> pl] : b \in HandVerb, pl \in VerbPlaces}
 \* family 5: two tags in a row with a literal between
 Between == {[fam |-> "between", k |-> k, k2 |-> k2, m |-> m] : k \in {"print", "set", "comment", "iftrue"}, k2 \in {"print", "comment", "verbatim", "for"},
                                                                 m \in Strs(SmallAlphabet, 1)}
 
+\* where a verbatim block stands: the body is inert everywhere
+VerbIn(c) ==
+    LET vb == <<Verbatim(c.b)>> IN
+    CASE "pl" \notin DOMAIN c \/ c.pl = "top" -> vb
+      [] c.pl = "macro" -> <<Macro("mv", <<Param("v")>>, <<Text(<<40>>)>> \o vb \o <<Text(<<41>>)>>), PrintS(Call("mv", <<Var("v")>>))>>
+      [] c.pl = "loop"  -> <<For1("v", Arr(<<Var("v"), LS(<<81, 90, 81>>)>>), vb)>>
+      [] c.pl = "block" -> <<Block("bb", vb)>>
+      [] c.pl = "if"    -> <<If1(LB(TRUE), vb)>>
 Prog(c) ==
     CASE c.fam = "around"  -> TextStmt(c.l) \o TagOf(c.k) \o TextStmt(c.r)
       [] c.fam = "alone"   -> TextStmt(c.t)
       [] c.fam = "comment" -> TextStmt(c.l) \o <<Comment(c.b), Text(<<46>>)>>
-      [] c.fam = "verbatim" -> TextStmt(c.l) \o <<Verbatim(c.b), Text(<<46>>)>>
+      [] c.fam = "verbatim" -> TextStmt(c.l) \o VerbIn(c) \o <<Text(<<46>>)>>
       [] c.fam = "between" -> TagOf(c.k) \o TextStmt(c.m) \o TagOf(c.k2)
 
 Admissible(c) ==
